@@ -4,6 +4,7 @@ import (
 	"context"
 	"fmt"
 	"reflect"
+	"sync"
 )
 
 var (
@@ -17,14 +18,24 @@ type FieldQuery struct {
 	hash   string
 }
 
+// hashMu guards the lazily computed FieldQuery.hash: a query placed in a context may be used by
+// many goroutines at once.
+var hashMu sync.RWMutex
+
 func (q *FieldQuery) Hash() string {
-	if q.hash != "" {
-		return q.hash
+	hashMu.RLock()
+	h := q.hash
+	hashMu.RUnlock()
+	if h != "" {
+		return h
 	}
 	b, _ := Marshal(q)
 	verifYield("enc-query:hash")
-	q.hash = string(b)
-	return q.hash
+	h = string(b)
+	hashMu.Lock()
+	q.hash = h
+	hashMu.Unlock()
+	return h
 }
 
 func (q *FieldQuery) MarshalJSON() ([]byte, error) {
